@@ -40,7 +40,7 @@ def _event_canaries(m, c):
     if m == "ErrorRateParity" and not c:
         return [("utilities_swapped", verify.replace_expr("[y_train, 1 - y_train]", "[1 - y_train, y_train]"))]
     if m == "DemographicParity" and c:
-        return [("raw_sensitive_features_handed_on", verify.replace_expr("sensitive_features=sf_train", "sensitive_features=sensitive_features"))]
+        return [("raw_sensitive_features_handed_on", verify.replace_expr("sf_train", "sensitive_features", 1))]
     return []
 
 
